@@ -13,7 +13,7 @@ from trie.exceptions import (
 )
 from trie.fog import HexaryTrieFog, TrieFrontierCache
 
-from ..core import HarnessError, Violation, hx, unhx
+from ..core import HarnessError, Violation, deep, hx, unhx
 from ..hgen import HistoryGen, make_pool, make_values, probe_keys
 from ..hworld import HWorld
 from ..models.mpt import RefMPT, bytes_of, nibbles_of
@@ -324,7 +324,7 @@ def generate(rng):
     cmds = g.history(rng.choice([0, 4, 8, 12, 16, 24, 40]))
     density = rng.choice([0.0, 0.2, 0.5, 0.8, "burst"])
     law = rng.choice(["unknown", "right", "mixed"])
-    n_steps = rng.choice([5, 10, 20, 40, 80])
+    n_steps = rng.choice(deep([5, 10, 20, 40, 80], [10, 20, 40, 80, 160, 300]))
 
     def walk_cmd():
         q, qk = gen_query(rng, pool)
